@@ -42,11 +42,108 @@ fn opts(p: &Preset) -> Option<Opts> {
     }
 }
 
+/// Reference content of the two diagonal estimators: (draw, gradient) pairs, oldest first.
+struct RefWindow {
+    fg: Vec<(Vec<f64>, Vec<f64>)>,
+    bg: Vec<(Vec<f64>, Vec<f64>)>,
+}
+
+/// two-pass mean and the admissible range of the "sum of squared deviations" of a window: from the exact
+/// one to the running sum of squared differences from the previous mean (the accumulator the repository
+/// uses; it is larger by a factor of at most 1 + H_n / n). Which of the formulas is used is not part of
+/// C09 - which draws enter is. None if a value is not finite or the spread is lost in rounding.
+fn moments(xs: &[f64]) -> Option<(f64, f64, f64)> {
+    if xs.iter().any(|x| !x.is_finite() || x.abs() > 1e100) {
+        return None;
+    }
+    let n = xs.len() as f64;
+    let mean = xs.iter().sum::<f64>() / n;
+    let ss = xs.iter().map(|x| (x - mean) * (x - mean)).sum::<f64>();
+    let (mn, mx) = xs.iter().fold((f64::INFINITY, f64::NEG_INFINITY), |(a, b), x| (a.min(*x), b.max(*x)));
+    let scale = xs.iter().fold(0.0f64, |a, x| a.max(x.abs()));
+    if !(mx - mn >= 1e-3 * scale) || !(ss > 0.0) || !ss.is_finite() {
+        return None;
+    }
+    let mut run_mean = xs[0];
+    let mut run_ss = 0.0;
+    for (k, x) in xs.iter().enumerate().skip(1) {
+        let diff = x - run_mean;
+        run_mean += diff / (k as f64 + 1.0);
+        run_ss += diff * diff;
+    }
+    Some((mean, ss, run_ss.max(ss)))
+}
+
+impl RefWindow {
+    /// compare the reported scales / mean with the estimate from the foreground window; returns the
+    /// number of coordinates compared
+    fn compare(&self, grad_based: bool, stds: &[f64], mu: &[f64]) -> Result<u64, String> {
+        let n = self.fg.len();
+        let dim = stds.len();
+        let mut checked = 0;
+        for i in 0..dim {
+            let xs: Vec<f64> = self.fg.iter().map(|(x, _)| x[i]).collect();
+            let gs: Vec<f64> = self.fg.iter().map(|(_, g)| g[i]).collect();
+            let Some((mx, sx, sx_run)) = moments(&xs) else { continue };
+            // admissible interval of the variance-like value whose square root is the reported scale
+            let (lo, hi, mg) = if grad_based {
+                let Some((mg, sg, sg_run)) = moments(&gs) else { continue };
+                let v = (sx / sg).sqrt();
+                let v_run = (sx_run / sg_run).sqrt();
+                if !(v.is_finite() && v > 0.0 && v_run.is_finite() && v_run > 0.0) {
+                    continue;
+                }
+                (v.min(v_run), v.max(v_run), Some(mg))
+            } else {
+                // (the normalisation, 1/n or 1/(n-1), is not pinned down)
+                (sx / n as f64, sx_run / (n as f64 - 1.0), None)
+            };
+            if lo < 1e-19 || hi > 1e19 {
+                continue; // clamped
+            }
+            let (lo, hi) = (lo.sqrt() * (1.0 - 1e-6), hi.sqrt() * (1.0 + 1e-6));
+            if !(stds[i] >= lo && stds[i] <= hi) {
+                return Err(format!(
+                    "coordinate {i}: reported scale {:e}, the window's draws{} give {:e}{}; window draws {:?}",
+                    stds[i],
+                    if grad_based { " and gradients" } else { "" },
+                    lo,
+                    if lo != hi { format!(" .. {:e}", hi) } else { String::new() },
+                    xs.iter().take(12).collect::<Vec<_>>()
+                ));
+            }
+            // (the grad-based mean uses the reported scale: mean(draw) + scale^2 * mean(grad))
+            let mean = match mg {
+                Some(mg) => mx + stds[i] * stds[i] * mg,
+                None => mx,
+            };
+            let tol = 1e-6 * (mx.abs() + (mean - mx).abs() + stds[i]);
+            if (mu[i] - mean).abs() > tol {
+                return Err(format!("coordinate {i}: reported mean {:e}, the window gives {:e}", mu[i], mean));
+            }
+            checked += 1;
+        }
+        Ok(checked)
+    }
+}
+
 impl Scenario for WindowScenario {
     fn run(&self) -> RunOutcome {
         let mut cfg = self.cfg.clone();
         cfg.keep_evals = true;
         cfg.observe_math = true;
+        // statistics needed by the window-content oracle (they do not influence the trajectory)
+        match &mut cfg.preset {
+            Preset::DiagNuts(s) => {
+                s.store_gradient = true;
+                s.adapt_options.mass_matrix_options.store_mass_matrix = true;
+            }
+            Preset::DiagMclmc(s) => {
+                s.store_gradient = true;
+                s.adapt_options.mass_matrix_options.store_mass_matrix = true;
+            }
+            _ => {}
+        }
         let h = run_chain(&cfg);
         let mut out = RunOutcome { digest: h.digest(), sim_draws: h.draws.len() as u64, sim_evals: h.n_evals, ..Default::default() };
         let pname = cfg.preset.name();
@@ -64,6 +161,21 @@ impl Scenario for WindowScenario {
         if fws > o.num_tune || early_end > o.num_tune {
             out.violate(format!("C09/phase_boundaries/{pname}"), format!("early_end {early_end}, final window start {fws}, num_tune {}", o.num_tune));
             return out;
+        }
+        // window-content reference (diagonal strategy): the draws and gradients held by the estimator in use
+        // and by its background copy; the start point is part of the first window
+        let grad_based = match &cfg.preset {
+            Preset::DiagNuts(s) => Some(s.adapt_options.mass_matrix_options.use_grad_based_estimate),
+            Preset::DiagMclmc(s) => Some(s.adapt_options.mass_matrix_options.use_grad_based_estimate),
+            _ => None,
+        };
+        let mut content: Option<RefWindow> = None;
+        if grad_based.is_some() && cfg.reinit_at.is_none() {
+            if let Some(e) = h.evals.iter().filter(|e| e.index < h.set_position_evals.1 && !e.returned_err).last() {
+                if init.foreground == 1 && init.background == 1 {
+                    content = Some(RefWindow { fg: vec![(e.pos.clone(), e.grad.clone())], bg: vec![(e.pos.clone(), e.grad.clone())] });
+                }
+            }
         }
         let mut prev = init;
         let mut inherited = init.foreground.saturating_sub(init.background); // fg - bg stays constant between switches
@@ -112,6 +224,42 @@ impl Scenario for WindowScenario {
                 );
                 return out;
             };
+            // ---- window content: the transformation reported after this call must be the estimate from
+            // exactly the draws of the current foreground window
+            if !cfg.preset.is_nuts() && d.progress.diverging {
+                content = None; // (MCLMC hands the estimator a state that is not the returned one)
+            }
+            if let Some(w) = content.as_mut() {
+                let mut ok = true;
+                if good == 1 {
+                    match d.vec("gradient") {
+                        Some(g) => {
+                            w.fg.push((d.pos.clone(), g.clone()));
+                            w.bg.push((d.pos.clone(), g.clone()));
+                        }
+                        None => ok = false,
+                    }
+                }
+                if switched {
+                    w.fg = std::mem::take(&mut w.bg);
+                }
+                if !ok || w.fg.len() as u64 != c.foreground || w.bg.len() as u64 != c.background {
+                    content = None;
+                } else if n > 0 && c.foreground >= 3 {
+                    if let (Some(stds), Some(mu)) = (d.vec("mass_matrix_inv"), d.vec("transformation_mu")) {
+                        match w.compare(grad_based.unwrap(), &stds, &mu) {
+                            Ok(k) => out.probe("window_content_coordinates_checked", k),
+                            Err(msg) => {
+                                out.violate(
+                                    format!("C09/transformation_not_from_current_window/{pname}"),
+                                    format!("draw {n}: foreground window holds {} accepted draws (background {}), {n_switch} switches so far; {msg}", c.foreground, c.background),
+                                );
+                                return out;
+                            }
+                        }
+                    }
+                }
+            }
             if switched {
                 n_switch += 1;
                 let bg_pre = c.foreground; // fg after the switch = background right before it
